@@ -20,6 +20,8 @@ pub enum Event {
     Computed(RequestId),
     /// worker finished and dropped its `Router` clone; `true` if it is unwinding from a panic
     Exited(RequestId, bool),
+    /// the loop thread took a notification (method) and is about to ask for exclusive access
+    NotificationTaken(String),
     /// the loop thread handled a notification (method)
     NotificationApplied(String),
     /// the loop thread caught a panic while handling a message
